@@ -1036,3 +1036,24 @@ func anchors() []Case {
 		mk("fft", "fft -MB=1 {gpus 1 emu cdna3}", []int{1}, false, false, false, "cdna3"),
 	}
 }
+
+// RereadsAcrossKernels reports whether the run launches at least three
+// kernels of which a later one re-reads (typically on another compute unit)
+// global data that an earlier kernel read and an intermediate one rewrote:
+// in-place passes (floydwarshall) or ping-pong buffers (pagerank, nbody,
+// stencil2d) with >= 3 passes.
+func RereadsAcrossKernels(c Case) bool {
+	switch c.Workload {
+	case "floydwarshall":
+		it := c.P["iter"]
+		if it == 0 || it > c.P["node"] { // floydwarshall.go:151 resets it to the node count
+			it = c.P["node"]
+		}
+		return it >= 3
+	case "pagerank":
+		return c.P["iterations"] >= 3
+	case "nbody", "stencil2d":
+		return c.P["iter"] >= 3
+	}
+	return false
+}
